@@ -156,6 +156,11 @@ Theorem C07_indexall_schedule_irrelevant :
 Proof. exact ia_same_as_sequential. Qed.
 Print Assumptions C07_indexall_schedule_irrelevant.
 
+(* the two actions of a task and their order are those of graph.Memory.IndexAll as re-read on this run *)
+Theorem C07_indexall_task_order_src : indexall_task_order = true.
+Proof. exact indexall_task_order_true. Qed.
+Print Assumptions C07_indexall_task_order_src.
+
 Example C07_indexall_schedule_example :
   exists st', ia_run (ctab ia_ct) (fun _ => true) (ia_init empty_graph 3%N)
                 [EvCommit 0; EvIndex 0; EvCommit 1; EvCommit 0; EvIndex 1; EvIndex 0;
